@@ -9,6 +9,7 @@ const HaveInstr = false
 func SiteName(site int) string        { return "?" }
 func NumSites() int                   { return 0 }
 func LibSteps() uint64                { return 0 }
+func SitesHit() []int                 { return nil }
 func SetPermHook(f func(n int) []int) {}
 
 type SchedConfig struct {
